@@ -346,6 +346,9 @@ def extract_fn(repo: Path, unit: VUnit, f: Fn) -> tuple[str, dict]:
         if n:
             info["rewrites"].append(f"{rw.rule}: /{rw.pattern}/ -> '{rw.repl}' x{n}")
         body = new
+    body, n_exp = expand_all_or_guard(body)
+    if n_exp:
+        info["rewrites"].append(f"R10c: or-pattern+guard arms expanded x{n_exp}")
     # ---- inserts
     for ins in f.inserts:
         regex, ordinal, text = ins[0], ins[1], ins[2]
@@ -504,6 +507,49 @@ def expand_or_guard_arms(body: str) -> tuple[str, int]:
     return "".join(out), n_exp
 
 
+def expand_all_or_guard(text: str) -> tuple[str, int]:
+    """Apply R10c (expand_or_guard_arms) to every `match .. { .. }` in `text`, innermost first."""
+    total = 0
+    toks = [t for t in tokenize(text) if t[0] not in ("ws", "comment")]
+    # find the LAST match first so that earlier offsets stay valid; nested matches are handled by recursion on the body
+    i = 0
+    spans = []
+    while i < len(toks):
+        if toks[i][0] == "ident" and toks[i][1] == "match":
+            depth, j = 0, i + 1
+            while j < len(toks):
+                if toks[j][1] in "([":
+                    depth += 1
+                elif toks[j][1] in ")]":
+                    depth -= 1
+                elif toks[j][1] == "{" and depth == 0:
+                    break
+                j += 1
+            if j >= len(toks):
+                break
+            d, k = 0, j
+            while k < len(toks):
+                if toks[k][1] == "{":
+                    d += 1
+                elif toks[k][1] == "}":
+                    d -= 1
+                    if d == 0:
+                        break
+                k += 1
+            if k >= len(toks):
+                break
+            spans.append((toks[j][3], toks[k][2]))
+            i = k + 1          # outer matches only; inner ones via recursion
+        else:
+            i += 1
+    for a, b in reversed(spans):
+        inner, n1 = expand_all_or_guard(text[a:b])
+        new, n2 = expand_or_guard_arms(inner)
+        total += n1 + n2
+        text = text[:a] + new + text[b:]
+    return text, total
+
+
 def extract_block(repo: Path, unit: VUnit, b: Block) -> tuple[str, dict]:
     path = repo / (b.source or unit.source)
     src = path.read_text()
@@ -534,10 +580,14 @@ def extract_block(repo: Path, unit: VUnit, b: Block) -> tuple[str, dict]:
         if n:
             info["rewrites"].append(f"{rw.rule}: /{rw.pattern}/ -> '{rw.repl}' x{n}")
         body = new
+    body, n = expand_all_or_guard(body)
     if b.expand_or_guards:
-        body, n = expand_or_guard_arms(body)
+        # the block itself is the inside of a match (its prologue opens it)
+        body, n2 = expand_or_guard_arms(body)
+        n += n2
         if n < b.expand_or_guards:
             raise LostAnchor(f"block {b.name}: R10c expanded {n} or-pattern+guard arm(s), expected >= {b.expand_or_guards}")
+    if n:
         info["rewrites"].append(f"R10c: or-pattern+guard arms expanded x{n}")
     clauses = ""
     if b.requires:
